@@ -49,7 +49,7 @@ def layout(rng, s):
         pos += w
     if rng.random() < 0.25:
         if rng.random() < 0.5 and lines:
-            lines[-1] += '*'
+            lines[-1] = lines[-1].rstrip() + '*' + rng.choice(['', ' ', '  '])
         else:
             lines.append('*')
     text = term.join(lines) + (term if rng.random() < 0.7 else '')
@@ -58,6 +58,17 @@ def layout(rng, s):
 
 def corrupt(rng, text):
     kind = rng.random()
+    if kind < 0.12:
+        # a second header placed before / right after the first one, or '>' put in front of a line
+        lines = text.split('\n')
+        i = rng.randrange(len(lines))
+        if rng.random() < 0.5:
+            lines[i] = '>' + lines[i]
+        else:
+            lines.insert(i, rng.choice(['>extra header', ' >x', '>']))
+        if rng.random() < 0.5 and not lines[0].lstrip().startswith('>'):
+            lines.insert(0, '>first')
+        return '\n'.join(lines)
     if kind < 0.6:
         i = rng.randrange(len(text) + 1)
         return text[:i] + chr(rng.randrange(128)) + text[i:]
@@ -102,7 +113,9 @@ def build(ctx):
     for b in range(128):
         for i in (0, 2, 4, 5, len(small)):
             texts.append(('byte', 'EKGSTAY', small[:i] + chr(b) + small[i:]))
-    texts += [('edge', '', ''), ('edge', '', '\n\n'), ('edge', '', '>only header\n'), ('edge', 'E', 'E'), ('edge', 'EK', 'ek\n')]
+    texts += [('edge', 'ACDE', '>h1\n>h2\nACDE\n'), ('edge', 'ACDE', '>h1\n\n  12 \n>h2\nACDE'), ('edge', 'ACDE', '>h1\n>ACDE\n'),
+              ('edge', 'AC', '>h1\nAC\n>h2\nDE\n'), ('edge', 'ACDE', 'ACDE\n>late header\n'),
+              ('edge', '', ''), ('edge', '', '\n\n'), ('edge', '', '>only header\n'), ('edge', 'E', 'E'), ('edge', 'EK', 'ek\n')]
     jobs = [(os.path.join(d, 'f%d.txt' % i), t) for i, (_, _, t) in enumerate(texts)]
     res = pmap(_parse, jobs, chunk=32)
     shutil.rmtree(d, ignore_errors=True)
